@@ -10,8 +10,10 @@
      collect l             a channel after the reports l (keyed by sender, ascending; a later report wins)
      reachable p g x s k ls   ls is the loop state of a fresh run of g on x after k continuing supersteps
      pregel_inv ls         channels all empty, nothing running, frontier without duplicates and without END *)
-From Eino Require Import Base.Util Model.Graph Model.Chain Proofs.Graph
-  Proofs.PregelBase Proofs.Pregel Proofs.PregelRun Proofs.PregelNest Proofs.PregelTop.
+From Coq Require Import Permutation.
+From Eino Require Import Base.Util Model.Graph Model.Chain Model.ChainSpec Proofs.Graph
+  Proofs.PregelBase Proofs.Pregel Proofs.PregelRun Proofs.PregelNest Proofs.PregelTop
+  Proofs.PregelChainLower Proofs.PregelChain Proofs.PregelOrder.
 Open Scope N_scope.
 
 (* ---------- default step limit = number of nodes + 10 (graph.compile) ---------- *)
@@ -126,6 +128,17 @@ Theorem pregel_consumed_once :
 Proof. exact pregel_step_consumed_once. Qed.
 Print Assumptions pregel_consumed_once.
 
+(* ---------- the superstep does not depend on the completion order of its tasks ---------- *)
+(* calculateNextTasks gives the same channels and the same next frontier for every order of the completed tasks
+   (Go collects them in completion order and iterates maps in random order; the model uses ascending keys) *)
+Theorem pregel_order_independent :
+  forall (V : Type) (ops : vops V) g (cs : chans V) outs outs',
+    g_mode g = Pregel -> chans_empty V cs ->
+    NoDup (akeys outs) -> outs_legal V ops g outs -> Permutation outs outs' ->
+    calc_next V ops g cs outs = calc_next V ops g cs outs'.
+Proof. exact calc_next_order_independent. Qed.
+Print Assumptions pregel_order_independent.
+
 (* ---------- pregel_end_first ---------- *)
 Theorem pregel_end_first :
   forall V St ops exec sub sched p g x s v l s',
@@ -211,6 +224,44 @@ Theorem subgraph_fuel_independent :
 Proof. exact run_nest_fuel_indep. Qed.
 Print Assumptions subgraph_fuel_independent.
 
+(* ---------- chain_lowering_correct ---------- *)
+(* a well-formed chain (non-empty; distinct node keys other than START/END; a Parallel / Branch stage is
+   non-empty and follows START or a single node — everything else is rejected by Chain.compile) lowers to an
+   any-predecessor graph whose run IS the sequential meaning [eval_chain] (Model/ChainSpec.v): same result,
+   same failures, same execution log, same final state; node, parallel and branch stages *)
+Theorem chain_lowering_correct :
+  forall V St (ops : vops V) exec sub sched sts max,
+    sub_fail_nonempty V St sub -> chain_wf sts ->
+    exists g, chain_lower sts max = Some g /\ pregel_graph g /\
+      forall p x s, run_flat V St ops exec sub sched p g x s = eval_chain V St ops exec sub p sts max x s.
+Proof. exact chain_lowering_correct_lemma. Qed.
+Print Assumptions chain_lowering_correct.
+
+(* the imperative lowering (append node, AddEdge/AddBranch from the previous nodes, END edges) builds the
+   layered graph in which every node of a stage points to the next stage *)
+Theorem chain_lower_is_layered :
+  forall sts max, chain_wf sts -> chain_lower sts max = Some (chain_graph sts max).
+Proof. exact chain_lower_graph. Qed.
+Print Assumptions chain_lower_is_layered.
+
+(* the meaning is function composition: a node stage applies its node to the value and hands the output to
+   the rest of the chain; a failing node fails the chain *)
+Theorem chain_is_composition :
+  forall V St (ops : vops V) exec sub p n rest b k v s lg o l s',
+    run_task V St ops exec sub p (node_of n) v s = (TOk o, l, s') ->
+    eval_stages V St ops exec sub p (SNode n :: rest) (S b) [(k, v)] s lg =
+    eval_stages V St ops exec sub p rest b [(sn_key n, o)] s' (lg ++ [step_entry V p [(sn_key n, v)]] ++ l).
+Proof. exact eval_node_stage_ok. Qed.
+Print Assumptions chain_is_composition.
+
+Theorem chain_node_failure :
+  forall V St (ops : vops V) exec sub p n rest b k v s lg e es l s',
+    run_task V St ops exec sub p (node_of n) v s = (TErr (e :: es), l, s') ->
+    eval_stages V St ops exec sub p (SNode n :: rest) (S b) [(k, v)] s lg =
+    (Fail (e :: es) (lg ++ [step_entry V p [(sn_key n, v)]] ++ l), s').
+Proof. exact eval_node_stage_fail. Qed.
+Print Assumptions chain_node_failure.
+
 (* ================= non-vacuity ================= *)
 (* a cyclic graph: START -> 2 -> 3, 3 branches back to 2 or to END depending on the size of its output *)
 Definition ex_node (k : key) (ds : list key) (bs : list branch) : node :=
@@ -247,4 +298,45 @@ Proof.
   - eexists. eexists. split; [vm_compute; reflexivity|]. split; [vm_compute; reflexivity|].
     econstructor; [vm_compute; reflexivity|constructor].
   - vm_compute. reflexivity.
+Qed.
+
+(* a chain: node 2, then parallel {3 -> "a"(10), 4 -> "b"(11)}, then node 5, then a branch over {6, 7}, then node 8 *)
+Definition ex_sn (k : key) (ok : option N) : snode := {| sn_key := k; sn_kind := KLambda; sn_outkey := ok |}.
+Definition ex_chain : list stage :=
+  [SNode (ex_sn 2 None); SPar [ex_sn 3 (Some 10); ex_sn 4 (Some 11)]; SNode (ex_sn 5 None);
+   SBranch [ex_sn 6 None; ex_sn 7 None] [[6]; [7]; [6; 7]]; SNode (ex_sn 8 None)].
+
+Example ex_chain_wf : chain_wf ex_chain.
+Proof.
+  split; [discriminate|]. split; [|reflexivity].
+  repeat (constructor; [simpl; intros H; repeat (destruct H as [H|H]; [discriminate|]); exact H|]). constructor.
+Qed.
+
+(* it lowers, and the run of the lowered graph (what Corr/C01.v evaluates for a chain case) is the meaning *)
+Example ex_chain_runs :
+  exists g, chain_lower ex_chain 0 = Some g /\
+    tree_run [] [g] (VAtom 1) =
+    fst (eval_chain value unit tree_ops (tree_exec []) (fun _ _ _ s => (Fail [mkerr eUnknownNode] [], s))
+                    [] ex_chain 0 (VAtom 1) tt) /\
+    is_ok (match tree_run [] [g] (VAtom 1) with Done v _ => Ok v | Fail _ _ => Err 0 end) = true /\
+    own_entries value [] (outcome_log value (tree_run [] [g] (VAtom 1))) = 6%nat.
+Proof.
+  eexists. split; [vm_compute; reflexivity|]. split; [vm_compute; reflexivity|].
+  split; vm_compute; reflexivity.
+Qed.
+
+(* hypotheses of pregel_order_independent: two completed tasks of the cyclic graph, in both orders *)
+Example ex_order_hyps :
+  let outs := [(2, VMap [(2, VAtom 1)]); (3, VMap [(3, VAtom 1)])] in
+  NoDup (akeys outs) /\ outs_legal value tree_ops (ex_cycle 0) outs /\ Permutation outs (rev outs) /\
+  chans_empty value (init_chans_v0 value (ex_cycle 0)) /\
+  is_ok (calc_next value tree_ops (ex_cycle 0) (init_chans_v0 value (ex_cycle 0)) outs) = true.
+Proof.
+  cbv zeta. split; [repeat constructor; simpl; intuition discriminate|].
+  split.
+  - constructor; [|constructor; [|constructor]].
+    + eexists. split; [reflexivity|]. intros b [].
+    + eexists. split; [reflexivity|]. intros b [<-|[]]. vm_compute. intros x [<-|[]]; simpl; auto.
+  - split; [apply Permutation_rev|]. split; [|vm_compute; reflexivity].
+    repeat constructor.
 Qed.
